@@ -987,7 +987,7 @@ fn fshapes(thorough: bool) -> Vec<FShape> {
         FShape { name: "d4r1c1-a12", degree_bits: 4, rate_bits: 1, cap_height: 1, arity_bits: vec![1, 2], tuples: vec![vec![7, 7], vec![7, 6], vec![5, 20], vec![20, 5], vec![3, 9, 30], vec![2, 11, 8]] },
     ];
     if thorough {
-        v.push(FShape { name: "d5r1c0-a321", degree_bits: 5, rate_bits: 1, cap_height: 0, arity_bits: vec![3, 2, 1], tuples: vec![vec![37, 37], vec![37, 9], vec![9, 37, 20], vec![63, 0, 31]] });
+        v.push(FShape { name: "d6r1c0-a321", degree_bits: 6, rate_bits: 1, cap_height: 0, arity_bits: vec![3, 2, 1], tuples: vec![vec![37, 37], vec![37, 9], vec![9, 37, 20], vec![63, 0, 31], vec![100, 25, 12]] });
         v.push(FShape { name: "d3r1c0-a3", degree_bits: 3, rate_bits: 1, cap_height: 0, arity_bits: vec![3], tuples: vec![vec![9, 9], vec![9, 12], vec![1, 9, 10]] });
         v.push(FShape { name: "d3r1c1-a0", degree_bits: 3, rate_bits: 1, cap_height: 1, arity_bits: vec![], tuples: vec![vec![2, 2], vec![2, 3], vec![2, 13, 3]] });
         // every ordered pair of indices for the three quick shapes
@@ -1069,8 +1069,10 @@ pub fn family<F: VF>(ctx: &mut Ctx) {
     }
     for (ci, (heights, widths)) in combos.iter().enumerate() {
         let last = *heights.last().unwrap();
+        // two combinations with the same heights get distinct names (the widths are appended)
+        let tag = if combos[..ci].iter().any(|(h2, _)| h2 == heights) { format!("{}w{}", hname(heights), hname(widths)) } else { hname(heights) };
         for c in 0..=last {
-            let idp = format!("C12.S.merkle.batchtree.h{}c{c}", hname(heights));
+            let idp = format!("C12.S.merkle.batchtree.h{tag}c{c}");
             ctx.guarded(&idp.clone(), F_BATCH, |ctx| batch_tree_obs::<F>(ctx, &idp, heights, widths, c));
             let n = 1usize << heights[0];
             let pos: Vec<usize> = if th { if n <= 4 { (0..n).collect() } else { vec![0, 2, 5, n - 1] } } else { vec![(3 * ci + 5 * c + 1) % (n - 2), n - 1 - (ci + c) % 2] };
@@ -1078,7 +1080,7 @@ pub fn family<F: VF>(ctx: &mut Ctx) {
             pos.dedup();
             for (pi, &i) in pos.iter().enumerate() {
                 let sel = if th { Sel { pins: true, mirrors: false, all: true, levels: true } } else { Sel { pins: pi == 0 && c == (ci % (last + 1)), mirrors: false, all: false, levels: false } };
-                let idp = format!("C12.S.merkle.batchbind.h{}c{c}.i{i}", hname(heights));
+                let idp = format!("C12.S.merkle.batchbind.h{tag}c{c}.i{i}");
                 ctx.guarded(&idp.clone(), F_VERIFY, |ctx| batch_bind_obs::<F>(ctx, &idp, heights, widths, c, i, sel));
             }
         }
